@@ -1,15 +1,16 @@
 #!/bin/sh
-# usage: seed_pipeline.sh <ID> [CHECK ...]   confirm (scratch worktree) + screen (private copy of /verif) every mutant of <ID>
-# at most four pipelines run at a time (four lock files)
+# usage: [SEED_ROOT=/tmp/seed2] seed_pipeline.sh <ID> [CHECK ...]   confirm (scratch worktree) + screen (private copy of /verif) every mutant of <ID>
+# at most four pipelines run at a time (four lock files shared by all rounds)
 id=$1; shift
+root=${SEED_ROOT:-/tmp/seed}
 if [ -z "$SEED_LOCKED" ]; then
   slot=${SEED_SLOT:-$(( $$ % 4 ))}
   SEED_LOCKED=1 exec flock /tmp/seed/lock.$slot "$0" "$id" "$@"
 fi
-for md in /tmp/seed/out/$id/m*; do
+for md in $root/out/$id/m*; do
   m=$(basename $md)
   [ -f $md/patch.diff ] || continue
-  [ -f $md/confirm.json ] || python3 /verif/tools/seed_confirm.py /tmp/seed/$id $md > $md/confirm.log 2>&1
-  python3 /verif/tools/seed_screen.py $id $m "$@" > $md/screen.log 2>&1
+  [ -f $md/confirm.json ] || python3 /verif/tools/seed_confirm.py $root/$id $md > $md/confirm.log 2>&1
+  SEED_ROOT=$root python3 /verif/tools/seed_screen.py $id $m "$@" > $md/screen.log 2>&1
   echo "$id $m confirmed=$(python3 -c "import json;print(json.load(open('$md/confirm.json')).get('confirmed'))" 2>/dev/null) $(tail -1 $md/screen.log | cut -c1-600)"
 done
